@@ -52,7 +52,7 @@ BigBodies == UNION {{ [framing |-> "cl", bodyLen |-> b, chunks |-> << >>],
                       [framing |-> "chunked", bodyLen |-> b, chunks |-> <<255, b - 255>>] } : b \in BigSizes}
 Bodies == SetToSeq(SmallBodies \cup BigBodies)
 
-Methods == <<"POST", "PUT", "GET", "DELETE">>
+Methods == <<"POST", "PUT", "GET", "DELETE", "M">>      \* "M": a one-letter extension method
 Targets == <<"/p", "/p/q?x=1&y=2", "/", "/a/b/c?k=v">>
 Styles == <<"canon", "lower", "upper", "mixed">>
 
@@ -60,7 +60,7 @@ Styles == <<"canon", "lower", "upper", "mixed">>
 \* of every dimension occurs with many different neighbours
 Shape(bi, hi, e, k) ==
     LET b == Bodies[bi] IN
-    [method |-> Methods[(k % 4) + 1], target |-> Targets[((k \div 2) % 4) + 1], ver |-> "1.1",
+    [method |-> Methods[(k % 5) + 1], target |-> Targets[((k \div 2) % 4) + 1], ver |-> "1.1",
      fields |-> HeaderSets[hi], framing |-> b.framing, bodyLen |-> b.bodyLen, chunks |-> b.chunks,
      hexUpper |-> (k % 2 = 0), chunkExt |-> (b.framing = "chunked" /\ k % 3 = 0),
      trailers |-> IF b.framing = "chunked" /\ k % 4 = 1 THEN <<T("X-T", "x-t", "tv")>>
